@@ -523,7 +523,8 @@ def run_check(prop: Prop, tier: str, seed: int) -> int:
     res.broken = broken + res.broken
 
     # 5. triage
-    if res.broken and not res.failures:
+    # failures already listed as known findings do not explain a broken link: keep searching in that case
+    if res.broken and not [f for f in res.failures if known_match(prop.id, f.signature) is None]:
         ctx.log("a link is broken (%s); searching the implementation for a failing input" %
                 ", ".join(f"{b.stage}:{b.name}" for b in res.broken))
         try:
